@@ -69,8 +69,9 @@ def indentation_level(source: str) -> int:
 
 def _string_literal_ranges(source: str):
     """Character ranges of the string literals in source that span lines or contain tabs."""
+    # The lines that the tokenizer is given below, which its positions refer to
     line_starts = [0]
-    for line in source.splitlines(keepends=True):
+    for line in io.StringIO(source):
         line_starts.append(line_starts[-1] + len(line))
 
     fstring_start = getattr(tokenize, "FSTRING_START", None)
